@@ -31,8 +31,11 @@ def scale (b : Bounds α) (c : α) : Bounds α :=
   if Arith.eq c zero then singleton zero
   else if Arith.gt c zero then ⟨mul b.lower c, mul b.upper c⟩
   else ⟨mul b.upper c, mul b.lower c⟩
+/-- `Bounds::div_by` (after fix 6650688: the endpoints are divided, no reciprocal). -/
 def divBy (b : Bounds α) (d : α) : Bounds α :=
-  if Arith.eq d zero then unbounded else scale b (div one d)
+  if Arith.eq d zero then unbounded
+  else if Arith.gt d zero then ⟨div b.lower d, div b.upper d⟩
+  else ⟨div b.upper d, div b.lower d⟩
 def abs (b : Bounds α) : Bounds α :=
   if Arith.ge b.lower zero then b
   else if Arith.le b.upper zero then neg b
@@ -188,7 +191,7 @@ def isBinaryCtx (c : Ctx α) (d : List (DomVar α)) : Bool :=
     isBoolVar d n && ((Arith.eq k one && Arith.eq c.rhs zero) || (Arith.eq k (ofInt (-1)) && Arith.eq c.rhs one))
   | _ => false
 
-partial def expVars : Exp α → List String
+def expVars : Exp α → List String
   | .num _ => []
   | .var s => [s]
   | .abs e | .not e | .un _ e => expVars e
